@@ -99,6 +99,16 @@ func TestTail(t *testing.T) {
 				cancel()
 			}
 			n.get.headFn = func(gcall, *vh.Header) (*vh.Header, error) { return netChain.Head(), nil }
+			if p := mbt.Int(in, "partial"); p > 0 {
+				// the peers answer every range request with its first p headers only
+				n.get.rangeFn = func(gc gcall, from *vh.Header) ([]*vh.Header, error) {
+					hi := from.Height() + 1 + uint64(p)
+					if hi > gc.To {
+						hi = gc.To
+					}
+					return n.get.honestRange(from.Height()+1, hi)
+				}
+			}
 			var startErr error
 			func() {
 				defer func() {
